@@ -439,6 +439,26 @@ func arpaCase(op, s string) string {
 var oddNumberLabels = []string{"+4", "-0", "+05", "+255", "-255", "0X0a", "0b1", "0o7", "1_0", "0xf", "0f", "+a", "-f",
 	"::ffff:4", "::ffff:403:201", "0:0:0:0:0:ffff:4", "::4", "::1", "1234::cdef", "4%eth0", "::ffff:4%eth0", "[4]", "4:53", "::ffff:0:4", "::"}
 
+// delegationLabels: labels of reverse-zone conventions other than the plain RFC 1035 / RFC 3596 one,
+// built around a host octet h so that ranges do and do not contain it: RFC 2317 classless
+// delegation ("first-last", "first/len"), RFC 4183 ("first-len"), named subnets.
+func delegationLabels(rng *rand.Rand, h int) []string {
+	lo, hi := h&^63, h|63
+	return []string{fmt.Sprintf("%d-%d", lo, hi), fmt.Sprintf("%d/26", lo), fmt.Sprintf("%d-26", lo), "0-255", "0/24", fmt.Sprintf("%d-%d", h, h),
+		fmt.Sprintf("%d-%d", (h+1)%256, 255), fmt.Sprintf("%d-%d", hi, lo), "subnet26", fmt.Sprintf("%d-%d", rng.IntN(256), rng.IntN(256)), "0-f", "0-3", "8-f"}
+}
+
+// withInsertedLabel: every name obtained from the dot-separated name nm by inserting one label at
+// position pos (0 = in front).
+func withInsertedLabel(nm string, pos int, l string) string {
+	ps := strings.Split(nm, ".")
+	if pos > len(ps) {
+		pos = len(ps)
+	}
+	out := append(append(append([]string{}, ps[:pos]...), l), ps[pos:]...)
+	return strings.Join(out, ".")
+}
+
 func genC04(rng *rand.Rand, tier string) (cases []string) {
 	n := 12000
 	if tier == "thorough" {
@@ -467,6 +487,23 @@ func genC04(rng *rand.Rand, tier string) (cases []string) {
 			nm := strings.Join(ls, ".") + ".in-addr.arpa"
 			cases = append(cases, arpaCase("C04.fromrev", nm), arpaCase("C04.fromrev", strings.ToUpper(nm)+"."),
 				"C04.v4rev "+hx([]byte(strings.Join(ls, "."))))
+		}
+	}
+	// a canonical name with one label of another reverse-zone convention inserted at every
+	// position (in front, between the octets / nibbles, before the root): classless delegations
+	// whose range contains, or does not contain, the host octet
+	for rep := 0; rep < 3; rep++ {
+		h := []int{4, 200, rng.IntN(256)}[rep]
+		v4 := fmt.Sprintf("%d.%d.%d.%d.in-addr.arpa", h, rng.IntN(256), rng.IntN(256), 1+rng.IntN(250))
+		v6 := nibblePTR(netip.AddrFrom16([16]byte{0x20, 1, 0xd, 0xb8, 15: byte(h)}))
+		for _, l := range delegationLabels(rng, h) {
+			for pos := 0; pos <= 4; pos++ {
+				nm := withInsertedLabel(v4, pos, l)
+				cases = append(cases, arpaCase("C04.fromrev", nm), arpaCase("C04.fromrev", mixCase(nm)+"."))
+			}
+			for _, pos := range []int{0, 1, 2, 31, 32} {
+				cases = append(cases, arpaCase("C04.fromrev", withInsertedLabel(v6, pos, l)))
+			}
 		}
 	}
 	for i := 0; i < n; i++ {
@@ -526,6 +563,24 @@ func genC05(rng *rand.Rand, tier string) (cases []string) {
 		}
 	}
 	rec(nil, maxLen)
+	// classless-delegation labels (RFC 2317 / RFC 4183) in front of, and inside, zone names of every
+	// length: they name a sub-octet network in another convention, not in the one the property fixes
+	for _, h := range []int{0, 64, rng.IntN(256)} {
+		for _, l := range delegationLabels(rng, h) {
+			for nl := 0; nl <= 4; nl++ {
+				ls := make([]string, nl)
+				for i := range ls {
+					ls[i] = fmt.Sprint(1 + rng.IntN(250))
+				}
+				zone := strings.Join(append(ls, "in-addr.arpa"), ".")
+				for pos := 0; pos <= nl && pos <= 1; pos++ {
+					nm := withInsertedLabel(zone, pos, l)
+					cases = append(cases, arpaCase("C05.prefix", nm), arpaCase("C05.extract", nm), arpaCase("C05.extract", "host."+nm))
+				}
+			}
+			cases = append(cases, arpaCase("C05.prefix", l+".0.8.b.d.0.1.0.0.2.ip6.arpa"), arpaCase("C05.extract", l+".0.8.b.d.0.1.0.0.2.ip6.arpa"))
+		}
+	}
 	// every byte as a nibble label and inside an octet label
 	for b := 0; b < 256; b++ {
 		c := string([]byte{byte(b)})
